@@ -249,6 +249,15 @@ impl PathSelector {
     /// Returns an absolute pattern.
     /// If pattern is relative (i.e. does not start with fs root), then the base_dir is appended.
     pub(crate) fn abs_pattern(base_dir: &Path, pattern: Pattern) -> Pattern {
+        // The alternatives of a pattern are patterns of their own, each can be relative or not
+        if let Some(alternatives) = pattern.alternatives() {
+            let alternatives = alternatives
+                .into_iter()
+                .map(|p| Self::abs_pattern(base_dir, p));
+            if let Some(pattern) = alternatives.reduce(Pattern::or) {
+                return pattern;
+            }
+        }
         Self::with_canonical_dir(Self::anchored_pattern(base_dir, pattern))
     }
 
